@@ -4,6 +4,7 @@ import (
 	"fmt"
 	"github.com/taurusgroup/multi-party-sig/internal/types"
 	"github.com/taurusgroup/multi-party-sig/pkg/hash"
+	"github.com/taurusgroup/multi-party-sig/pkg/paillier"
 	"github.com/taurusgroup/multi-party-sig/pkg/pedersen"
 	zksch "github.com/taurusgroup/multi-party-sig/pkg/zk/sch"
 	"reflect"
@@ -69,16 +70,30 @@ func addInt(x *saferith.Int, d int64) *saferith.Int {
 // wrongShares: in CMP key generation / refresh the shares are computed in round 3 from the polynomial that was committed to
 // in round 1; the cheater evaluates ANOTHER polynomial (constant term + 1) there: every share it sends is a well-formed,
 // in-range scalar that does not lie on the committed polynomial.
-func (c *cheat) wrongShares(s round.Session) {
-	if c.rule != "cmp:wrongshares" || typeName(s) != "round3" {
+func (c *cheat) wrongShares(s round.Session) {}
+
+// wrongShareTo: the round-4 message to ONE recipient (the first other party) carries an encryption of f(j) + 1 under the
+// recipient's key - in range, well formed, with the genuine factor proof - instead of f(j).  The other parties are served
+// correctly, so that they have no reason to stop before the victim is done.
+func (c *cheat) wrongShareTo(next round.Session, m *round.Message) {
+	if c.rule != "cmp:wrongshares" || typeName(m.Content) != "message4" || m.To != next.OtherPartyIDs()[0] {
 		return
 	}
-	f := field(s, "VSSSecret")
-	if !f.IsValid() || !f.CanSet() {
+	vss := field(next, "VSSSecret")
+	pks := field(next, "PaillierPublic")
+	if !vss.IsValid() || !pks.IsValid() {
 		return
 	}
-	cur := f.Interface().(*polynomial.Polynomial)
-	f.Set(reflect.ValueOf(polynomial.NewPolynomial(s.Group(), int(cur.Degree()), s.Group().NewScalar().Set(cur.Constant()).Add(one(s.Group())))))
+	pk, ok := pks.MapIndex(reflect.ValueOf(m.To)).Interface().(*paillier.PublicKey)
+	if !ok || pk == nil {
+		return
+	}
+	share := vss.Interface().(*polynomial.Polynomial).Evaluate(m.To.Scalar(next.Group()))
+	wrong := next.Group().NewScalar().Set(share).Add(one(next.Group()))
+	ct, _ := pk.Enc(curve.MakeInt(wrong))
+	if f := field(m.Content, "Share"); f.IsValid() && f.CanSet() {
+		f.Set(reflect.ValueOf(ct))
+	}
 }
 
 func (c *cheat) before(s round.Session) {
@@ -216,6 +231,7 @@ func (c *cheat) zeroDeal(next round.Session) {
 
 func (c *cheat) beforeSend(next round.Session, m *round.Message) {
 	c.frostBeforeSend(next, m)
+	c.wrongShareTo(next, m)
 	if c.newPhi != nil && typeName(m.Content) == "broadcast2" {
 		if f := field(m.Content, "Phi_i"); f.IsValid() && f.CanSet() {
 			f.Set(reflect.ValueOf(c.newPhi))
